@@ -582,7 +582,14 @@ func (b *BaseStore) Load(ctx context.Context, amount int) error {
 			span.AddEvent("store-head-loaded")
 
 			span.AddEvent("store-heads-joining")
-			if _, inErr = oplog.Join(l, amount); inErr != nil {
+			// Join trims the merged log to its last `size` entries and
+			// cannot be given a size larger than the merged log
+			size := amount
+			if size > oplog.Values().Len()+l.Values().Len() {
+				size = -1
+			}
+
+			if _, inErr = oplog.Join(l, size); inErr != nil {
 				span.AddEvent("store-heads-joining-failed")
 				// err = fmt.Errorf("unable to join log: %w", err)
 				// TODO: log
